@@ -74,6 +74,7 @@ def make(kind: str, program: str, with_callback: bool = True, route_back: bool =
                     if gw.tr is None or gw.tr.closed:
                         return
                     events.append((round(loop.time(), 3), "srv->", raw[:1].hex()))
+                    srv.setdefault("sent", []).append((loop.time(), bytes(raw)))
                     gw.send(DeviceConfigurationRequest(CHANNEL, srv["seq"], raw))
                     srv["seq"] = (srv["seq"] + 1) % 256
 
@@ -266,10 +267,22 @@ def make(kind: str, program: str, with_callback: bool = True, route_back: bool =
                         viols.append(("repetition-with-other-counter", f"{[x['counter'] for x in run]}; events={events}"))
                     if run[0]["counter"] != expect:
                         viols.append(("request-counter-wrong", f"request carries counter {run[0]['counter']}, reference {expect}; events={events}"))
+                    # accepted, as far as the client can tell: acknowledged - or, the acknowledgement missing, an answer for exactly this
+                    # request (same service, object type, instance and property; it cannot tell a stale duplicate apart) arrived meanwhile
+                    req_raw = run[0]["key"][1]
+                    con_code = {CEMIMessageCode.M_PROP_READ_REQ.value: CEMIMessageCode.M_PROP_READ_CON.value, CEMIMessageCode.M_PROP_WRITE_REQ.value: CEMIMessageCode.M_PROP_WRITE_CON.value}.get(req_raw[0])
+                    answered = any(run[0]["t"] - 1e-9 <= t <= run[-1]["t"] + 10 + 1e-9 and raw[0] == con_code and raw[1:5] == req_raw[1:5] for t, raw in srv.get("sent", []))
                     if any(x["ack"] in ("ack-ok", "ack-twice") for x in run):
                         expect = (expect + 1) % 256
+                    elif answered:
+                        expect = (expect + 1) % 256
+                        continue
                     elif len(run) == 4 and not any(e[1] == "DisconnectRequest(client)" for e in events):
                         viols.append(("no-disconnect-after-unacknowledged-repetitions", f"events={events}"))
+                # 'the counter advances once per accepted request': what the client would put into its next request
+                if conn.communication_channel is not None and srv.get("new_connection_at") is None and conn.sequence_number != expect:
+                    viols.append(("counter-advanced-without-acceptance" if conn.sequence_number > expect else "counter-not-advanced-after-acceptance",
+                                  f"the client's next counter is {conn.sequence_number}, the server accepted {expect} request(s) on this connection; events={events}"))
             for name, exc in loop.task_failures():
                 viols.append((f"task-exception:{type(exc).__name__}", f"{name}: {exc!r}; events={events}"))
             for cx in loop.exceptions:
@@ -286,7 +299,7 @@ SCENARIOS = {"dm": make}
 
 
 def run(ctx: Ctx) -> None:
-    bound = 4 if ctx.thorough else 2
+    bound = 5 if ctx.thorough else 3
     ctx.rule = (
         f"real UDP/TCPDeviceManagementConnection (connected through connect()) against a simulated server: programs read P1 then write P2 / read P1 twice / two reads concurrently / read, disconnect(), connect() on the same object, read again (also with route_back=True), optional "
         f"user disconnect() while a request waits; per DeviceConfigurationRequest the server acknowledges with {ACKS} (UDP) and answers with {ANSWERS}; EVERY schedule with <= {bound} deviations. "
